@@ -129,3 +129,5 @@ def run(rep, tier):
     include_source_rule(rep)
     determinism_rule(rep)
     optimize_safe(rep)
+    from .. import controls
+    controls.route_controls(rep)
